@@ -89,21 +89,24 @@ func callerCode() []byte {
 
 // init code returning `runtime`
 func initReturning(runtime []byte) []byte {
-	return append([]byte{0x60, byte(len(runtime)), 0x80, 0x60, 0x0c, 0x60, 0x00, 0x39, 0x60, 0x00, 0xf3}, runtime...)
+	return append([]byte{0x60, byte(len(runtime)), 0x80, 0x60, 0x0b, 0x60, 0x00, 0x39, 0x60, 0x00, 0xf3}, runtime...)
 }
 
 // constructor: SSTORE(1,0x2a); LOG1(0,0,0x77); then return the selfdestruct runtime
-func initWithCtor() []byte {
-	pre := hx("602a600155 6077 60006000 a1")
-	rt := sdCode
-	ret := []byte{0x60, byte(len(rt)), 0x80, 0x60, byte(len(pre) + 12), 0x60, 0x00, 0x39, 0x60, 0x00, 0xf3}
-	return append(append(pre, ret...), rt...)
+func initWithCtor() []byte { return initCtor(0x2a, 0x77, sdCode) }
+
+// constructor: SSTORE(1,val); LOG1(0,0,topic); then return `rt`
+func initCtor(val, topic byte, rt []byte) []byte {
+	pre := []byte{0x60, val, 0x60, 0x01, 0x55, 0x60, topic, 0x60, 0x00, 0x60, 0x00, 0xa1}
+	ret := []byte{0x60, byte(len(rt)), 0x80, 0x60, byte(len(pre) + 11), 0x60, 0x00, 0x39, 0x60, 0x00, 0xf3}
+	return append(append(append([]byte{}, pre...), ret...), rt...)
 }
 
 func word(v uint64) []byte { return common.LeftPadBytes(new(big.Int).SetUint64(v).Bytes(), 32) }
 
 func init() {
-	for i := 0; i < 4; i++ {
+	// keys 0-3: rich senders; keys 4-6: accounts with 0.01 coin, used only for the worker's pending sets
+	for i := 0; i < 7; i++ {
 		k := crypto.ToECDSAUnsafe(common.LeftPadBytes([]byte{0xC0, 0x01, byte(i + 1)}, 32))
 		keys = append(keys, k)
 		addrs = append(addrs, crypto.PubkeyToAddress(k.PubKey()))
@@ -124,11 +127,20 @@ func configs() []cfgSpec {
 	return []cfgSpec{{"staged-hf1@2..hf9@12,eip155/158/byz@9", &staged}, {"TestChainConfig", &test}}
 }
 
+var poorBalance = big.NewInt(10000000000000000)
+
 func genesisSpec(cfg *params.ChainConfig) *core.Genesis {
 	big20, _ := new(big.Int).SetString("100000000000000000000", 10)
 	alloc := core.GenesisAlloc{}
-	for _, a := range addrs {
-		alloc[a] = core.GenesisAccount{Balance: big20}
+	for i, a := range addrs {
+		if i < 4 {
+			alloc[a] = core.GenesisAccount{Balance: big20}
+		} else {
+			alloc[a] = core.GenesisAccount{Balance: new(big.Int).Set(poorBalance)}
+		}
+	}
+	for _, a := range probeAddrs {
+		alloc[a] = core.GenesisAccount{Code: probeCode, Balance: big.NewInt(0)}
 	}
 	alloc[storeAddr] = core.GenesisAccount{Code: storeCode, Balance: big.NewInt(1), Storage: map[common.Hash]common.Hash{
 		common.BytesToHash(word(1)): common.BytesToHash(word(11)), common.BytesToHash(word(2)): common.BytesToHash(word(22))}}
@@ -1056,6 +1068,9 @@ func partCorruption(c *vh.Ctx, m *vh.Model, ch *chainT, idx int, cache *core.Cac
 	parent := ch.genesis
 	for i, b := range ch.blocks {
 		cs := all[i]
+		if i+1 < len(ch.blocks) { // the child before its parent: refused without a trace (not parked anywhere)
+			cs = append(cs, corrupt{"orphan/child-before-parent", ch.blocks[i+1], false})
+		}
 		// 1. single-field corruptions, before the good block arrives: must be refused, nothing may change
 		before := snapshot(n)
 		for _, cr := range cs {
@@ -1132,6 +1147,26 @@ func partCorruption(c *vh.Ctx, m *vh.Model, ch *chainT, idx int, cache *core.Cac
 				return
 			}
 		}
+		// a block that was refused before is refused again now that its sibling is the head (bad-block
+		// LRU, block/body caches and the state cache must not turn it into a known or valid block)
+		{
+			var cand []int
+			for k, cr := range cs {
+				if !cr.fixed && !strings.HasPrefix(cr.name, "orphan/") {
+					cand = append(cand, k)
+				}
+			}
+			for t := 0; t < 2 && len(cand) > 0; t++ {
+				cr := cs[cand[c.Rng.Intn(len(cand))]]
+				c.Eval("re-offer-after-good-block:"+strings.SplitN(cr.name, "/", 2)[0], fmt.Sprintf("%d/%d/re/%s", idx, i, cr.name))
+				if err := n.insert([]*types.Block{cr.blk}); err == nil {
+					enc, _ := rlp.EncodeToBytes(cr.blk)
+					c.Violate("corrupted-block-accepted-on-second-offer/"+cr.name, fmt.Sprintf("block %d with %s was refused first and accepted when offered again after the good block", i+1, cr.name),
+						replayOf(ch, map[string]interface{}{"parent_number": i, "corruption": cr.name, "corrupted_block_rlp": vh.Hex(enc)}))
+					return
+				}
+			}
+		}
 		if err := clean.insert([]*types.Block{b}); err != nil {
 			c.Violate("valid-block-refused/clean-node", fmt.Sprintf("block %d of a generated chain was refused by a node that saw only valid blocks: %v", i+1, err), replayOf(ch, map[string]interface{}{"block": i + 1, "error": err.Error()}))
 			return
@@ -1148,12 +1183,24 @@ func partCorruption(c *vh.Ctx, m *vh.Model, ch *chainT, idx int, cache *core.Cac
 			fmt.Sprintf("accepted %s %d", vh.Hex(b.Root().Bytes()), b.GasUsed()), m.Ask(req))
 		// 3. variants with re-derived body roots (may be valid different blocks), on their own node: the
 		// model decides; if accepted every commitment must be the recomputed one
+		early := map[int]bool{}
+		for k, cr := range cs {
+			if cr.fixed && c.Rng.Intn(3) == 0 {
+				early[k] = true
+				n2.insert([]*types.Block{cr.blk}) // verdict irrelevant here; it executes other transactions on the same parent
+				c.Count("rederived-variant:offered-before-good-block")
+			}
+		}
 		if err := n2.insert([]*types.Block{b}); err != nil {
 			c.Violate("valid-block-refused/variant-node", fmt.Sprintf("block %d of a generated chain was refused by a node that had accepted valid sibling variants: %v", i+1, err), replayOf(ch, map[string]interface{}{"block": i + 1, "error": err.Error()}))
 			return
 		}
-		for _, cr := range cs {
-			if !cr.fixed || (!c.Thorough() && c.Rng.Intn(2) == 0) {
+		if got, want := receiptsText(n2.bc.GetReceiptsByHash(b.Hash())), receiptsText(clean.bc.GetReceiptsByHash(b.Hash())); got != want {
+			c.Violate("variants-changed-good-block-receipts", fmt.Sprintf("block %d: receipts differ between a node that executed sibling variants first and a clean node", i+1),
+				replayOf(ch, map[string]interface{}{"block": i + 1, "clean": clip(want), "observed": clip(got)}))
+		}
+		for k, cr := range cs {
+			if !cr.fixed || early[k] || (!c.Thorough() && c.Rng.Intn(2) == 0) {
 				continue
 			}
 			req := importReq(n2, cr.blk, parent.Root())
@@ -1254,9 +1301,60 @@ func partBuilder(c *vh.Ctx, m *vh.Model, ch *chainT, idx int, k int) {
 			offered = append(offered, tx)
 		}
 	}
+	// transactions that pass the pool's checks but fail inside ApplyTransaction, at price-dependent
+	// positions among the good ones
+	gwei := func() *big.Int { return big.NewInt(int64(1+r.Intn(6)) * 1000000000) }
+	sign := func(ki int, tx *types.Transaction) {
+		stx, err := types.SignTx(tx, types.HomesteadSigner{}, keys[ki])
+		if err != nil {
+			panic(err)
+		}
+		offered = append(offered, stx)
+	}
+	frac := func(b *big.Int, num int64) *big.Int {
+		return new(big.Int).Div(new(big.Int).Mul(b, big.NewInt(num)), big.NewInt(10))
+	}
+	var failKinds []string
+	if r.Intn(6) != 0 { // two transfers, each affordable alone, not together: the second fails after nonce bump and gas purchase
+		n4, b4 := st.GetNonce(addrs[4]), st.GetBalance(addrs[4])
+		sign(4, types.NewTransaction(n4, freshPool[1], frac(b4, 6), 21000, gwei(), nil))
+		sign(4, types.NewTransaction(n4+1, addrs[1], frac(b4, 6), 21000, gwei(), nil))
+		sign(4, types.NewTransaction(n4+2, addrs[1], big.NewInt(1), 21000, gwei(), nil)) // then: nonce too high
+		failKinds = append(failKinds, "overdraft-value")
+	}
+	if r.Intn(3) != 0 { // two creations with value: the second fails in Create after the gas purchase
+		n5, b5 := st.GetNonce(addrs[5]), st.GetBalance(addrs[5])
+		sign(5, types.NewContractCreation(n5, frac(b5, 6), 300000, gwei(), initReturning(storeCode)))
+		sign(5, types.NewContractCreation(n5+1, frac(b5, 6), 300000, gwei(), initCtor(1, 2, sdCode)))
+		failKinds = append(failKinds, "overdraft-create")
+	}
+	if r.Intn(3) != 0 { // the second cannot buy its gas after the first
+		n6, b6 := st.GetNonce(addrs[6]), st.GetBalance(addrs[6])
+		sign(6, types.NewTransaction(n6, freshPool[2], frac(b6, 9), 21000, gwei(), nil))
+		sign(6, types.NewTransaction(n6+1, storeAddr, big.NewInt(0), 300000, big.NewInt(4000000000), g.storeData()))
+		failKinds = append(failKinds, "cannot-buy-gas")
+	}
+	if r.Intn(2) == 0 { // a gas hog that does not fit behind the others
+		hog := r.Intn(4)
+		hn := st.GetNonce(addrs[hog])
+		for _, tx := range offered {
+			if f, _ := types.Sender(types.NewEIP155Signer(ch.spec.cfg.ChainId), tx); f == addrs[hog] && tx.Nonce() >= hn {
+				hn = tx.Nonce() + 1
+			}
+		}
+		sign(hog, types.NewTransaction(hn, addrs[(hog+1)%4], big.NewInt(1), a.bc.CurrentBlock().GasLimit()-uint64(30000+r.Intn(40000)), big.NewInt(1000000000), nil))
+		failKinds = append(failKinds, "gas-hog")
+	}
+	// random arrival order at the pool
+	for i := len(offered) - 1; i > 0; i-- {
+		j := r.Intn(i + 1)
+		offered[i], offered[j] = offered[j], offered[i]
+	}
 	for _, e := range pool.AddRemotes(offered) {
 		_ = e
 	}
+	// nonce-ordered arrival may have left some queued: offer again so that every executable one is pending
+	pool.AddRemotes(offered)
 	pend, _ := pool.Pending()
 	npend := 0
 	for _, l := range pend {
@@ -1274,7 +1372,10 @@ func partBuilder(c *vh.Ctx, m *vh.Model, ch *chainT, idx int, k int) {
 	})
 	class := fmt.Sprintf("builder:worker/pending=%s/uncle-offered=%d", bucket(npend), len(uncles))
 	if !pan && blk != nil {
-		class = fmt.Sprintf("builder:worker/height=%d/pending=%s/included=%s/uncles=%d", k+1, bucket(npend), bucket(len(blk.Transactions())), len(blk.Uncles()))
+		class = fmt.Sprintf("builder:worker/height=%d/pending=%s/included=%s/skipped=%s/uncles=%d", k+1, bucket(npend), bucket(len(blk.Transactions())), bucket(npend-len(blk.Transactions())), len(blk.Uncles()))
+		for _, fk := range failKinds {
+			c.Count("builder-pending-with:" + fk)
+		}
 	}
 	if pan || blk == nil {
 		c.Eval(class, "")
@@ -1288,6 +1389,23 @@ func partBuilder(c *vh.Ctx, m *vh.Model, ch *chainT, idx int, k int) {
 	c.Eval(class, fmt.Sprintf("%d/%d/%d", idx, k, len(blk.Transactions())))
 	enc, _ := rlp.EncodeToBytes(sealed)
 	rep := replayOf(ch, map[string]interface{}{"parent_number": k, "built_block_rlp": vh.Hex(enc), "offered": len(offered), "pending": npend, "included": len(blk.Transactions())})
+	rep["fail_kinds_offered"] = failKinds
+	// (ii) the transactions the worker dropped must have left no trace: the header's state root is the
+	// root of executing exactly the included transactions on the parent state
+	if aparent := a.bc.GetBlockByHash(sealed.ParentHash()); aparent != nil {
+		po := strings.Fields(processOracle(a, sealed, aparent.Root()))
+		if len(po) < 2 || po[0] != "ok" {
+			rep["error"] = lastProcessErr
+			c.Violate("own-block-does-not-execute", "the transactions the worker included do not execute in order on the parent state", rep)
+		} else if po[1] != vh.Hex(sealed.Root().Bytes()) {
+			rep["root_of_included_only"], rep["header_root"] = po[1], vh.Hex(sealed.Root().Bytes())
+			sig := "own-block-root-mismatch"
+			if npend > len(blk.Transactions()) {
+				sig = "builder-skipped-tx-left-trace"
+			}
+			c.Violate(sig, fmt.Sprintf("worker-built block on %d: the header state root is not the root of executing the %d included transactions (%d pending were dropped)", k, len(blk.Transactions()), npend-len(blk.Transactions())), rep)
+		}
+	}
 	// second node (other cache mode), same prefix
 	b := newNode(c, ch, nil)
 	defer func() { b.bc.Stop() }()
@@ -1384,7 +1502,7 @@ func main() {
 	c := vh.Init("C01")
 	m := c.StartModel()
 	defer m.Close()
-	c.Res.Rule = "chains of 13 blocks from core.GenerateChain (faker engine) on two configurations (hard forks 1-9 at heights 2-12 with EIP155/158/Byzantium at 9; TestChainConfig with forks at 1-7), 0-6 transactions per block drawn from 13 kinds (transfers to funded / fresh / empty accounts, zero-value touches, calls into contracts that write and clear storage slots from a small pool and emit LOG1/LOG2, selfdestruct to varying beneficiaries, REVERT-or-LOG0, a contract calling another, creations with and without constructor effects, a failing creation, out-of-gas calls, precompiles, calls into contracts created earlier), homestead- and EIP155-signed, a miner that is also a sender, uncles (at most one per block, 2-6 generations back), empty blocks, a sibling per block and a competing fork. Each chain: (a) nine arrival histories compared observable by observable; commitments and verdict compared with the extracted model; (b) one block assembled by opt/miner's worker over a real TxPool and imported into a second node; (c) every single-field corruption of every block offered before the good block (invariance of head/TD/state/every database key) and re-derived variants afterwards. A case is distinct and non-trivial by (chain, history | block, corruption | builder parent and included count)."
+	c.Res.Rule = "chains of 13 blocks from core.GenerateChain (faker engine) on two configurations (hard forks 1-9 at heights 2-12 with EIP155/158/Byzantium at 9; TestChainConfig with forks at 1-7), 0-6 transactions per block drawn from 13 kinds (transfers to funded / fresh / empty accounts, zero-value touches, calls into contracts that write and clear storage slots from a small pool and emit LOG1/LOG2, selfdestruct to varying beneficiaries, REVERT-or-LOG0, a contract calling another, creations with and without constructor effects, a failing creation, out-of-gas calls, precompiles, calls into contracts created earlier), homestead- and EIP155-signed, a miner that is also a sender, uncles (at most one per block, 2-6 generations back), empty blocks, a sibling per block and a competing fork. Each chain: (a) nine arrival histories compared observable by observable; commitments and verdict compared with the extracted model; (b) one block assembled by opt/miner's worker over a real TxPool and imported into a second node; (c) every single-field corruption of every block offered before the good block (invariance of head/TD/state/every database key) and re-derived variants afterwards. (d) per chain one pair of competing forks that put different code (same deployer and nonce, different init code and code length), constructor storage, storage values, balances and a one-sided selfdestruct at the SAME identities and read them in later blocks through a probe contract (EXTCODESIZE, EXTCODECOPY, BALANCE, CALL, SSTORE of what was read): eleven orders of arrival of both forks on one running node (A then B, B then A, interleaved; batches / per block; archive / pruning; restarts; after a failed block of the other fork), every block compared with a cold node that only saw its fork. The worker's pending sets in (b) contain transactions that pass the pool but fail inside ApplyTransaction (overdraft by value after nonce bump and gas purchase, overdraft in Create, cannot buy gas after the previous one, gas hog, nonce gaps) at price-dependent positions, at every fork height; the header root must be the root of executing only the included transactions. A case is distinct and non-trivial by (chain, history | block, corruption | builder parent and included count | fork history)."
 	c.Assume("header verification and uncle verification are the faker engine's (all rules of C13 except the seal); seals are not checked")
 	c.Assume("database = aquadb.MemDatabase; restart = BlockChain.Stop + NewBlockChain on the same database")
 	c.Assume("Go map iteration orders and cache contents actually taken are sampled (one run per history); the theorems cover all of them in the model")
@@ -1442,7 +1560,9 @@ func main() {
 			cache, cname = nil, "pruning-default"
 		}
 		partCorruption(c, m, ch, idx, cache, cname)
-		c.Note("%s corruption %.1fs", tnote, time.Since(t3).Seconds())
+		t4 := time.Now()
+		partForks(c, spec, idx)
+		c.Note("%s corruption %.1fs forks %.1fs", tnote, t4.Sub(t3).Seconds(), time.Since(t4).Seconds())
 		if idx == 0 {
 			c.Sample(map[string]interface{}{"config": spec.name, "kinds_per_block": ch.kinds, "fork_at": ch.forkAt, "fork_len": len(ch.fork)})
 		}
